@@ -87,7 +87,7 @@ func text(s script, n int, variant int) (string, []int) {
 		return []string{"x = = 1", "a[", "y = 1\nz = \"unterminated", "if x { use(\"s0.p\") "}[variant%4], nil
 	case kCheckFail:
 		// failures at different depths of the expression tree: the script's own error has 1, 2, 3, 4 positions
-		return []string{"y = 2\nnosuch()", "y = 2\nx = len(nosuch())", "x = len(len(nosuch()))", "if true {\n  z = [1, {\"k\": len(len(len(nosuch2())))}]\n}", "for i in [1] { add_key() }", "x = pval(pval(pval(pval(pval(nosuch()))))))"[:40] + ")"}[variant%6], nil
+		return []string{"y = 2\nnosuch()", "y = 2\nx = len(nosuch())", "x = len(len(nosuch()))", "if true {\n  z = [1, {\"k\": len(len(len(nosuch2())))}]\n}", "for i in [1] { add_key() }", "x = 1\nbreak", "for i in [1] { }\nif true { continue }", "for ;; { for e in [1] { nosuch() } }", "x = pval(pval(pval(pval(pval(nosuch()))))))"[:40] + ")"}[variant%9], nil
 	}
 	var b strings.Builder
 	var offs []int
